@@ -26,6 +26,9 @@ META = {
     'technique': 'static analysis: branch-label table extraction and agreement, CFG must-facts (typestate NonEmpty)',
 }
 
+
+META['explanation'] += ' Rounds 4-5: ' + 'R1 also: X12Reader.cleanup looks at the type of every open envelope (no iteration ends before the dispatch).'
+
 HEADERS = {'ISA': ('ISA13', 'isa_ids', None, 'gs_count'),      # ctrl element, seen list, reset of seen list at, counter reset here
            'GS': ('GS06', 'gs_ids', 'ISA', 'st_count'),
            'ST': ('ST02', 'st_ids', 'GS', 'seg_count')}
